@@ -38,7 +38,9 @@ DirPipelines ==
                                                                             o \in {"none", "variants"} }   \* -headerOverride "Variants: Accept-Language;en;fr" on every response
   \cup
   { << Step("gen-bundle -dir", {"dir"}, [kind |-> "bundle", sign |-> "none", ver |-> v], [names |-> n, ver |-> v, base |-> IF n = "indexroot" THEN "port" ELSE IF n = "plain" /\ r = 4096 THEN "otherhost" ELSE "root", override |-> IF n = "nested" THEN "variants" ELSE IF n = "plain" /\ r = 16 THEN "contentenc" ELSE "none"]),     \* contentenc: every response already declares a content coding of its own (Content-Encoding: gzip) before it is signed
-       Step("sign-bundle signatures-section", {"bundle", "certcbor", "eckey"}, [kind |-> "bundle", sign |-> "sigsection", ver |-> v], [keyform |-> k, curve |-> c, rs |-> r, ncerts |-> nc, inplace |-> (k = "pkcs8" /\ r = 16)]),     \* inplace: -o names the input file (how several signers are appended to one bundle)
+       Step("sign-bundle signatures-section", {"bundle", "certcbor", "eckey"}, [kind |-> "bundle", sign |-> "sigsection", ver |-> v], [keyform |-> k, curve |-> c, rs |-> r, ncerts |-> nc, inplace |-> (k = "pkcs8" /\ r = 16),
+             \* -expire: the documented range ends at seven days (168h); the signature is dated "now" (no -date flag), and the bundle must verify now
+             expire |-> IF r = 16 /\ nc = 1 THEN "168h" ELSE IF r = 4096 /\ nc = 2 THEN "167h59m30s" ELSE "default"]),     \* inplace: -o names the input file (how several signers are appended to one bundle)
        Step("dump-bundle", {"bundle"}, [kind |-> "text"], [x |-> 0]) >> : n \in {"plain", "nested", "indexroot"}, v \in BundleVers, k \in EcKeyForms, c \in Curves, r \in {16, 4096},
                                                                             nc \in {1, 2} }     \* certificate chain of the signer: leaf alone / leaf + issuer
   \cup
